@@ -264,10 +264,13 @@ def check(prog, rep, tier):
     timer_shape(prog, rep)
 
 
-def _handler_types(h):
+def _handler_types(h, module=None):
     if h.type is None:
         return {'*'}
-    elts = h.type.elts if isinstance(h.type, ast.Tuple) else [h.type]
+    t = h.type
+    if isinstance(t, ast.Name) and module is not None and isinstance(module.assigns.get(t.id), ast.Tuple):
+        t = module.assigns[t.id]          # except _NOT_PENDING:  with  _NOT_PENDING = (A, B, C)
+    elts = t.elts if isinstance(t, ast.Tuple) else [t]
     return set(src_of(e).split('.')[-1] for e in elts)
 
 
@@ -295,7 +298,7 @@ def timer_shape(prog, rep):
             types = set()
             rearm = False
             for h in t.handlers:
-                types |= _handler_types(h)
+                types |= _handler_types(h, f.module)
                 for n in ast.walk(ast.Module(body=h.body, type_ignores=[])):
                     if isinstance(n, ast.Assign) and isinstance(n.value, ast.Call) and \
                             src_of(n.value.func).endswith('callLater') and \
